@@ -28,9 +28,11 @@ func runC18(c *Ctx) {
 	c.Rule("C18.O7", "E4", "the blocking readers' deferred clean-up removes the connection from the tracked set (delete(engine.conns, key) under Engine.mux), reports the close and releases the load slot on every path: Shutdown waits for the set to drain", 2)
 	c.Rule("C18.O8", "E4", "every torn-down connection reaches the close notification that releases the connection WaitGroup (same rule as C03.O9): Stop waits on it", 1)
 	c.Rule("C18.O9", "E5", "the listener mux's close channel is created once, in its constructor: the channel listeners copy it when they are made, so a later re-assignment leaves them waiting on a channel nobody closes", 1)
+	c.Rule("C18.O10", "E5", "the poller's shutdown flag is written only by poller.stop: a loop that resets it when it starts undoes a Stop that ran before the poller goroutine was scheduled, and Stop then waits for that poller forever", 1)
 	c.Rule("C18.O6", "E5", "connection WaitGroup pairing (same rule as C03.O3)", 2)
 	c18ReaderCleanup(c)
 	c18CloseChanOnce(c)
+	c18ShutdownWriters(c)
 	c03AlwaysNotifies(c, "C18.O8")
 
 	L := c.Locks()
@@ -604,4 +606,25 @@ func c18CloseChanOnce(c *Ctx) {
 	}
 	got := strings.Join(sortedKeys(writers), ",")
 	c.Cond(got == "lmux.New", "C18.O9", "writers of lmux.ListenerMux.chClose", "", got, "the close channel is assigned in ["+got+"], expected only the constructor: Mux() hands the channel's value to the channel listeners, so after a re-assignment Stop closes a channel their Accept does not select on and the HTTP listen goroutines stay blocked (Stop hangs)")
+}
+
+// c18ShutdownWriters: O10.
+func c18ShutdownWriters(c *Ctx) {
+	writers := map[string]bool{}
+	where := ""
+	for _, f := range c.nbioFuncs() {
+		for _, st := range c.P.StoresTo(f, "nbio.poller.shutdown") {
+			if _, fresh := ir.Root(st.Addr.(*ssa.FieldAddr).X).(*ssa.Alloc); fresh {
+				continue
+			}
+			name := c.P.FuncName(ir.Outermost(f))
+			writers[name] = true
+			if name != "(*nbio.poller).stop" {
+				where = c.Pos(st)
+			}
+		}
+	}
+	got := strings.Join(sortedKeys(writers), ",")
+	c.Cond(got == "(*nbio.poller).stop", "C18.O10", "writers of nbio.poller.shutdown", where, got,
+		"the shutdown flag is written by ["+got+"] (e.g. at "+where+"): the poller goroutine's own reset at the start of its loop overwrites a stop() that ran before the goroutine was scheduled (Stop right after Start, or under CPU load), the wake-up is consumed, and Engine.Stop waits in WaitGroup.Wait for a poller that never exits")
 }
